@@ -56,6 +56,7 @@ type Case struct {
 	Doc2   *Doc              `json:"doc2"`
 	Env    map[string]string `json:"env"`
 	Texts  map[string]string `json:"texts"`  // hand-written renderings of Doc (instead of the printers')
+	Order  []string          `json:"order"`  // the order in which the three byte loaders run (default json, yaml, toml)
 	Texts2 map[string]string `json:"texts2"` // hand-written renderings of Doc2: ANOTHER SPELLING of the same document
 	NoLoad bool              `json:"noload"` // shape: only the type is of interest (white-box run)
 	Props  [][2]string       `json:"props"`  // env cases: lines of a properties file
@@ -345,11 +346,21 @@ func run2(rt reflect.Type, call func(target any) error) Res {
 	return r
 }
 
+// the order of the three loaders within a case (state kept by conf between loads must not matter)
+var loadOrder = formats
+
 func loadBytes(rt reflect.Type, texts map[string]string) map[string]Res {
 	res := map[string]Res{}
-	res["json"] = run2(rt, func(t any) error { return conf.LoadFromJsonBytes([]byte(texts["json"]), t) })
-	res["yaml"] = run2(rt, func(t any) error { return conf.LoadFromYamlBytes([]byte(texts["yaml"]), t) })
-	res["toml"] = run2(rt, func(t any) error { return conf.LoadFromTomlBytes([]byte(texts["toml"]), t) })
+	for _, f := range loadOrder {
+		switch f {
+		case "json":
+			res["json"] = run2(rt, func(t any) error { return conf.LoadFromJsonBytes([]byte(texts["json"]), t) })
+		case "yaml":
+			res["yaml"] = run2(rt, func(t any) error { return conf.LoadFromYamlBytes([]byte(texts["yaml"]), t) })
+		case "toml":
+			res["toml"] = run2(rt, func(t any) error { return conf.LoadFromTomlBytes([]byte(texts["toml"]), t) })
+		}
+	}
 	return res
 }
 
@@ -493,6 +504,10 @@ func runCase(c Case, dir string) (out Out) {
 		return runConc(c)
 	}
 	out.ID = c.ID
+	loadOrder = formats
+	if len(c.Order) == 3 {
+		loadOrder = c.Order
+	}
 	rt, err := buildType(c.Type)
 	if err != nil {
 		out.Fail = "build type: " + err.Error()
